@@ -100,6 +100,10 @@ def cases(draw):
             # combinational blocks without any block on their inputs (constants only / no inputs)
             'consts': draw(st.sampled_from([None, None, 'and', 'func', 'empty', 'chain'])),
             'consts_first': draw(st.booleans()),
+            # a persistent library FSM with a saved state (its output may be a false value) and a
+            # different initdef: the saved state wins
+            'libfsm': draw(st.sampled_from([None, None, 'timer_off', 'timer_on', 'inputexp_expired',
+                                            'inputexp_valid'])),
             'waiters': draw(st.integers(1, 2)),
             'permseed': draw(st.integers(0, 1000))}
     return case
@@ -407,6 +411,15 @@ def run_order(case, order):
             edzed.FuncBlock('cb', func=calc).connect(f'b{order[0]}')
         if case['slowstop']:
             SlowStop('slowstop', stop_timeout=3)
+        lf = case.get('libfsm')
+        libblk = None
+        if lf in ('timer_off', 'timer_on'):
+            libblk = edzed.Timer('ltm', persistent=True, initdef='on' if lf == 'timer_off' else 'off')
+            storage[libblk.key] = ['off' if lf == 'timer_off' else 'on', None, {}]
+        elif lf in ('inputexp_expired', 'inputexp_valid'):
+            libblk = edzed.InputExp('lie', duration=edzed.INF_TIME, expired=None, initdef=5, persistent=True)
+            storage[libblk.key] = (['expired', None, {'input': 3}] if lf == 'inputexp_expired'
+                                   else ['valid', None, {'input': 0}])
         if not case.get('consts_first'):
             mkconsts()
         circuit.set_persistent_data(storage)
@@ -428,6 +441,8 @@ def run_order(case, order):
                           circuit.is_ready()))
             obs.setdefault('all_outputs', {blk.name: ('<UNDEF>' if blk.output is UNDEF else blk.output)
                                            for blk in circuit.getblocks()})
+            if libblk is not None:
+                obs.setdefault('libfsm', [libblk.state, libblk.output])
         wtasks = [asyncio.create_task(waiter(k)) for k in range(case['waiters'])]
         await asyncio.gather(*wtasks)
         obs['waits'] = waits
@@ -532,6 +547,11 @@ def execute(case, all_orders=False):
             if obs['all_outputs'].get(n) != w:
                 res.fail('C05.outputs', tag + f"combinational block {n} outputs {obs['all_outputs'].get(n)!r}, "
                          f"expected {w!r}")
+        want_lib = {'timer_off': ['off', False], 'timer_on': ['on', True], 'inputexp_expired': ['expired', None],
+                    'inputexp_valid': ['valid', 0]}.get(case.get('libfsm'))
+        if want_lib is not None and obs.get('libfsm') != want_lib:
+            res.fail('C05.saved_state_not_used', tag + f"persistent {case['libfsm']}: state and output "
+                     f"{obs.get('libfsm')}, the saved state gives {want_lib}")
         maxto = max([b.get('timeout', 0) for b in blocks] or [0])
         if obs['waits'][0][2] > maxto + 1e-6:
             res.fail('C05.waited_too_long', tag + f"{obs['waits'][0][2]} s > largest init_timeout {maxto}")
